@@ -286,4 +286,43 @@ theorem sparse_empty : sparseCompress [] = [0, 0, 0, 0] ∧ ∀ n, sparseDecompr
   have : sparseCompress [] = [0, 0, 0, 0] := by decide
   rw [this]; rfl
 
+theorem sparseGo_bounded (f : Nat) (data : Bytes) (rem : Nat) (out : Bytes) :
+    (sparseGo f data rem out).length ≤ out.length + rem := by
+  induction f generalizing data rem out with
+  | zero => simp [sparseGo]
+  | succ f ih =>
+    cases data with
+    | nil => simp [sparseGo]
+    | cons b rest =>
+      simp only [sparseGo]
+      split
+      · generalize (if b.toNat % 128 + 1 > rest.length then rest.length else b.toNat % 128 + 1) = avail
+        split
+        · omega
+        · have := ih (rest.drop (min avail rem)) (rem - min avail rem) (out ++ rest.take (min avail rem))
+          simp only [List.length_append, List.length_take] at this
+          omega
+      · have := ih rest (rem - min (b.toNat % 128 + 3) rem) (out ++ List.replicate (min (b.toNat % 128 + 3) rem) 0)
+        simp only [List.length_append, List.length_replicate] at this
+        omega
+
+/-- the sparse decoder never returns more than the caller's bound, whatever the input declares -/
+theorem sparse_output_bounded (data : Bytes) (expected : Nat) (out : Bytes)
+    (h : sparseDecompress data expected = some out) : out.length ≤ expected := by
+  unfold sparseDecompress at h
+  split at h
+  · rename_i b0 b1 b2 b3 rest
+    split at h
+    · simp at h
+    · simp only at h
+      split at h
+      · simp at h
+      · rename_i hle
+        simp only [Option.some.injEq] at h
+        subst h
+        have := sparseGo_bounded (rest.length + 1) rest (b0.toNat * 16777216 + b1.toNat * 65536 + b2.toNat * 256 + b3.toNat) []
+        simp only [List.length_nil, Nat.zero_add] at this
+        omega
+  · simp at h
+
 end Wv.Codec
